@@ -20,7 +20,21 @@ MCSeeds == <<
   [todo |-> <<Sr(Nt("import_or_reference_stm"), 1)>>, n |-> 2, zr |-> {}, dev |-> {"TxNoRulesOk"}],
   \* 7: a rule reference (each representative name) followed by repeat modifiers
   [todo |-> <<Tk("A"), Tk(":"), Tk("x"), Tk("+="), Nt("rule_ref"), Nt("repeat_modifiers"), Tk(";")>>,
-   n |-> 1, zr |-> {}, dev |-> {}]
+   n |-> 1, zr |-> {}, dev |-> {}],
+  \* 8-11: two assignments to the same attribute, every pair of assignment operators,
+  \* the second / the first / the second without brackets under every repeat operator, and unrepeated
+  [todo |-> <<Tk("A"), Tk(":"), Tk("x"), Nt("assignment_op"), Tk("'a'"),
+              Tk("("), Tk("x"), Nt("assignment_op"), Tk("'a'"), Tk(")"), Nt("repeat_sign"), Tk(";")>>,
+   n |-> 3, zr |-> {}, dev |-> {}],
+  [todo |-> <<Tk("A"), Tk(":"), Tk("("), Tk("x"), Nt("assignment_op"), Tk("'a'"), Tk(")"), Nt("repeat_sign"),
+              Tk("x"), Nt("assignment_op"), Tk("'a'"), Tk(";")>>,
+   n |-> 3, zr |-> {}, dev |-> {}],
+  [todo |-> <<Tk("A"), Tk(":"), Tk("x"), Nt("assignment_op"), Tk("'a'"),
+              Tk("x"), Nt("assignment_op"), Tk("'a'"), Nt("repeat_sign"), Tk(";")>>,
+   n |-> 3, zr |-> {}, dev |-> {}],
+  [todo |-> <<Tk("A"), Tk(":"), Tk("x"), Nt("assignment_op"), Tk("'a'"),
+              Tk("x"), Nt("assignment_op"), Nt("assignment_rhs"), Tk(";")>>,
+   n |-> 3, zr |-> {"obj_ref", "repeat_modifiers"}, dev |-> {}]
 >>
 NoDev   == {}
 EnvDev  == IF IOEnv.VT_DEV = "" THEN {} ELSE {IOEnv.VT_DEV}
